@@ -64,3 +64,98 @@ Proof.
   cbn. repeat split; try (intros [H|H]; try lia; try destruct H; lia); try lia; try tauto; try constructor.
   intros j x H. destruct j; discriminate.
 Qed.
+
+(* add_region on a record whose regions do not span the origin (every linear record): the list being
+   in location order and pairwise disjoint, a new region is refused (ValueError) exactly when it
+   shares a base with a region of the record; otherwise it is inserted, and the list stays in location
+   order and pairwise disjoint.  (With an origin-spanning NEW region the scan stops too early: finding
+   add_region_scan_stops_early, C06_add_region_ring_refuted below.) *)
+Theorem C06_add_region_rejects_overlap : forall N regs r,
+  Forall (simple_reg N) regs -> simple_reg N r -> sorted_disjoint regs ->
+  ((exists ex, In ex regs /\ shares_base (rloc r) (rloc ex)) -> add_region N regs r = Err E_Value) /\
+  (~ (exists ex, In ex regs /\ shares_base (rloc r) (rloc ex)) ->
+   exists i, (i <= length regs)%nat /\ add_region N regs r = Ok (insert_at i r regs) /\
+             sorted_disjoint (insert_at i r regs) /\ Forall (simple_reg N) (insert_at i r regs)).
+Proof. exact add_region_linear. Qed.
+Print Assumptions C06_add_region_rejects_overlap.
+
+Example C06_add_region_example :
+  let mk s e := mkCR [mkPart s e 1] [] [mkCA 0 0 [mkPart s e 1]] in
+  let regs := [mk 100 200; mk 400 500; mk 700 800] in
+  Forall (simple_reg 1000) regs /\ sorted_disjoint regs /\ simple_reg 1000 (mk 200 400) /\
+  add_region 1000 regs (mk 200 400) = Ok [mk 100 200; mk 200 400; mk 400 500; mk 700 800] /\
+  add_region 1000 regs (mk 450 750) = Err E_Value /\ add_region 1000 regs (mk 50 101) = Err E_Value.
+Proof.
+  cbn zeta. repeat split; try reflexivity;
+    repeat (constructor; try (eexists; split; [reflexivity|cbn; lia])); cbn; try lia.
+  eexists; split; [reflexivity|cbn; lia].
+Qed.
+
+(* the same claim is false on a circular record: an origin-spanning new region is only compared with
+   the region at position 0 *)
+Theorem C06_add_region_ring_refuted : exists N regs r,
+  (exists ex, In ex regs /\ shares_base (rloc r) (rloc ex)) /\ exists regs', add_region N regs r = Ok regs'.
+Proof. exact add_region_ring_counterexample. Qed.
+Print Assumptions C06_add_region_ring_refuted.
+
+(* Parent and region links: after EVERY history of add_protocluster, CandidateCluster(...) +
+   add_candidate_cluster, add_subregion, create_regions, clear_regions, clear_candidate_clusters,
+   clear_subregions, clear_protoclusters (whatever create_regions groups and whichever genes lie
+   within the regions), every protocluster's parent is None or a candidate cluster of the record, every
+   area's parent is None or a region of the record, and every gene's region link is None or a region
+   of the record.  (Histories in which a call raises are not covered: a create_regions that fails
+   half way leaves the areas of the refused region pointing at it.) *)
+Theorem C06_no_stale_parents : forall ops, let st := fold_left l_apply ops l_empty in
+  (forall p c, lget p (l_pparent st) = Some c -> In c (map fst (l_cands st))) /\
+  (forall a r, lget a (l_aparent st) = Some r -> In r (map lr_id (l_regions st))) /\
+  (forall g r, lget g (l_cdsreg st) = Some r -> In r (map lr_id (l_regions st))).
+Proof. exact no_stale_links. Qed.
+Print Assumptions C06_no_stale_parents.
+
+Example C06_no_stale_parents_example :
+  let ops := [LAddProto 100; LAddCand 200 [100]; LAddSub 300; LCreate [([200; 300], [0; 1])]; LClearSubs [([200], [0])]] in
+  let st := fold_left l_apply ops l_empty in
+  lget 100 (l_pparent st) = Some 200 /\ lget 200 (l_aparent st) = Some 1 /\ lget 300 (l_aparent st) = None /\
+  lget 0 (l_cdsreg st) = Some 1 /\ lget 1 (l_cdsreg st) = None /\ map lr_id (l_regions st) = [1].
+Proof. vm_compute. repeat split; reflexivity. Qed.
+
+(* Circular (and linear) records in the Loc.v model, guard: no area spans the origin.  For every
+   such record and every supply of candidate clusters and sub-regions: the sweep of create_regions
+   with overlaps_with / connect_locations(wrap_point) and the first/last merge succeeds and finds
+   exactly the sections of the interval model, i.e. (C06_components_linear,
+   C06_regions_disjoint_sorted) the connected components of the share-a-base graph with their tight
+   hulls; Region.__init__ accepts every section (location = that hull, every child contained) and
+   add_region refuses none: create_regions succeeds with one region per section, in section order,
+   holding the section's candidate clusters and sub-regions, and the region list is in location
+   order and pairwise disjoint.  Partial: with an origin-spanning area the statement is false
+   (C06_components_ring_refuted). *)
+Theorem C06_components_ring_partial : forall N circular cands subs,
+  Forall (simple_area N) (cands ++ subs) ->
+  exists secs regs,
+    csections (wrap_of N circular) cands subs = Ok secs /\
+    create_regions N circular [] cands subs = Ok regs /\
+    map lin_of_sec secs = regions N (map area_of (cands ++ subs)) /\
+    map region_view regs = map region_of_sec secs /\
+    sorted_disjoint regs /\ Forall (simple_reg N) regs.
+Proof. exact ring_create_regions. Qed.
+Print Assumptions C06_components_ring_partial.
+
+Example C06_components_ring_example :
+  let sub i s e := mkCA i 0 [mkPart s e 1] in
+  let subs := [sub 0 100 500; sub 1 150 200; sub 2 400 600; sub 3 600 700] in
+  Forall (simple_area 1000) ([] ++ subs) /\
+  match csections (Some 1000) [] subs with
+  | Ok secs => map lin_of_sec secs
+  | Err _ => []
+  end = [(100, 600, [mkItv 100 500; mkItv 150 200; mkItv 400 600]); (600, 700, [mkItv 600 700])].
+Proof. split; [repeat constructor; eexists; (split; [reflexivity|cbn; lia])|vm_compute; reflexivity]. Qed.
+
+(* the full statement fails on a ring: (a) F12 origin_spanning_area - creation raises although the
+   areas form two components; (b) origin_spanning_long_arc - an area that shares no base with any
+   other area ends up in their region *)
+Theorem C06_components_ring_refuted :
+  (exists N supply, record_regions N true supply = Err E_Value) /\
+  (exists N supply reg a b, record_regions N true supply = Ok [reg] /\ In a (rsubs reg) /\ In b (rsubs reg) /\
+     forall c, In c supply -> cid c <> cid b -> ~ shares_base (cloc b) (cloc c)).
+Proof. exact ring_counterexamples. Qed.
+Print Assumptions C06_components_ring_refuted.
